@@ -83,6 +83,10 @@ def align(a, b, P):
 
 
 def add(a, b, P):
+    if b.m == 0 and b.r == 0:
+        return norm(a.m, a.e, a.r, P)
+    if a.m == 0 and a.r == 0:
+        return norm(b.m, b.e, b.r, P)
     am, ar, bm, br, e = align(a, b, P)
     return norm(am + bm, e, ar + br, P)
 
